@@ -11,6 +11,7 @@ def plugin_method(label):
     def spec(it, sc, args, kwargs, node, anchor):
         it.st.log.append(LogEntry(label, list(args), kwargs, None, anchor))
         if it.ctx.branch(z3.Bool("%s_raises!%d" % (label, len(it.st.log))), label + " raises"):
+            it.st.log[-1].raised = True
             it.raise_symbolic(anchor, "Exception", label)
         res = it.ctx.fresh(label + "_res", Val)
         it.assume_shape(res, ANY)
